@@ -328,6 +328,87 @@ pub fn run(ctx: &Ctx) {
     );
 }
 
+/// the parallel path: the pools apply the same filter inside their workers
+pub fn check_pool(c: &FiltCase, kind_sel: u8, workers: usize, st: &mut Stats) -> Result<(), Fail> {
+    use crate::pool::{run_pool, PoolCfg, PoolKind};
+    // the dispatch hashers decode Ethernet and raw IP framing only (C18's quantifier): loopback re-framed copies are outside the pools' domain
+    let mut c = c.clone();
+    c.mal.retain(|m| !matches!(m, Mal::Reframe(_, true)));
+    let c = &c;
+    let spec = filter_of(c);
+    let pk = frames_of(c);
+    let (pkind, skind) = [(PoolKind::Tcp, Kind::Tcp), (PoolKind::Http, Kind::Http), (PoolKind::Tls, Kind::Tls)][(kind_sel % 3) as usize];
+    let frames: Vec<Vec<u8>> = pk.iter().map(|p| p.frame.clone()).collect();
+    let mut clock = std::collections::HashMap::new();
+    for p in &pk {
+        if let Some(v) = p.tsval {
+            clock.insert(v, p.at);
+        }
+    }
+    // sequential reference: the unfiltered analyzer on the admitted sub-trace
+    drive::set_clock_table(&pk);
+    let sub: Vec<&[u8]> = pk
+        .iter()
+        .filter(|p| match decoded_endpoints(&p.frame) {
+            Some((s, d, sp, dp)) => c14::reference(&spec, &s, &d, sp, dp),
+            None => true,
+        })
+        .map(|p| p.frame.as_slice())
+        .collect();
+    let n_adm = sub.len();
+    let mut reference = run_pcap(skind, &sub, None).map_err(|e| fail!("pool:reference-error", "{e}"))?;
+    drive::clear_clock_table();
+    let cfg = PoolCfg { workers, queue: frames.len() + 8, batch: 16, timeout_ms: 3, dispatchers: 1, perturb: None, max_sleep_us: 0 };
+    let run = run_pool(pkind, &frames, &cfg, Some(&spec), Some(clock)).map_err(|e| fail!("pool:new", "{e}"))?;
+    if let Some(p) = &run.worker_panic {
+        return Err(Fail::new(format!("pool:worker-{}", crate::engine::panic_key(p)), p.clone()));
+    }
+    if run.drain_timeout {
+        st.discards += 1;
+        return Ok(());
+    }
+    if n_adm > 0 && n_adm < pk.len() {
+        st.nontrivial(&(c, kind_sel, workers));
+    }
+    // the TCP pool joins the parts of one packet's result with " || "; split for comparison with the sequential rendering
+    let mut got: Vec<String> = run.results.iter().flat_map(|(_, s)| s.split(" || ").map(|x| x.to_string()).collect::<Vec<_>>()).collect();
+    got.sort();
+    reference.sort();
+    if got != reference {
+        let extra: Vec<&String> = got.iter().filter(|g| !reference.contains(g)).collect();
+        let missing: Vec<&String> = reference.iter().filter(|g| !got.contains(g)).collect();
+        return Err(fail!(
+            format!("{:?}-pool:{}", pkind, if !extra.is_empty() { "result-for-rejected-endpoints-or-extra-result" } else { "admitted-traffic-lost" }),
+            "filter {:?}: pool {} results, reference {} ({} of {} frames admitted)
+extra {}
+missing {}",
+            spec,
+            got.len(),
+            reference.len(),
+            n_adm,
+            pk.len(),
+            truncate(&format!("{:?}", extra.first()), 300),
+            truncate(&format!("{:?}", missing.first()), 300)
+        ));
+    }
+    Ok(())
+}
+
+pub fn run_pools(ctx: &Ctx) {
+    ctx.shrink_iters.store(15, std::sync::atomic::Ordering::Relaxed);
+    let n = ctx.tier.pick(2_000, 40_000);
+    ctx.run_prop(
+        "pool-filtered-vs-subtrace",
+        "the same traces, malformed frames and filters through the TCP / HTTP / TLS worker pools (1..6 workers) with the filter installed; oracle: the unfiltered sequential analyzer on the admitted sub-trace, results compared as multisets; non-trivial: the filter admits a proper non-empty subset",
+        n,
+        || (filt_case(), 0u8..3, 1usize..7),
+        |(c, k, w): &(FiltCase, u8, usize), st: &mut Stats| {
+            st.sample(|| json!({"filter": format!("{:?}", filter_of(c)), "frames": frames_of(c).len(), "pool": k % 3, "workers": w}));
+            check_pool(c, *k, *w, st)
+        },
+    );
+}
+
 pub fn replay(_ctx: &Ctx, _sub: &str, input: &serde_json::Value) -> Result<(), Fail> {
     let c: FiltCase = serde_json::from_value(input["value"].clone()).map_err(|e| fail!("bad-replay", "{e}"))?;
     let mut st = Stats::new();
